@@ -11,6 +11,12 @@ PUB_CAP = (2, 3)
 SUB_CAP = (1, 3)
 
 
+def clock_slack(ticks):
+    """resolution, in ticks, of a float clock reading `ticks` ticks (0 below 2^53 ticks)"""
+    import math
+    return int(math.ulp(ticks / float(TICK)) * TICK)
+
+
 class V(object):
     """a violation found by a monitor"""
     def __init__(self, prop, sig, msg, step):
@@ -412,7 +418,10 @@ class C04(Monitor):
                     # CONNACK timer: due exactly keepalive (10 if 0) seconds later
                     ka = int(op[3]) or 10
                     new = [t for tid, t in st.timers.items() if tid not in st.pre_timers and t['kind'] == 'connack' and t['owner'] == st.p]
-                    if len(new) != 1 or new[0]['due'] != st.now + ka * TICK:
+                    # (the reactor's clock is a float number of seconds: beyond 2^53 ticks it cannot represent every tick, and a deadline
+                    # "10 s from now" is only as exact as the clock's resolution at that magnitude -- reached only by the long chains
+                    # of the thorough tier, whose back-off delays double at every resumption)
+                    if len(new) != 1 or abs(new[0]['due'] - (st.now + ka * TICK)) > clock_slack(st.now + ka * TICK):
                         self.flag('connack-timer', 'CONNACK timeout not armed at keepalive-or-10 s: %s (now %s, keepalive %s)' % (new, st.now, op[3]), st)
                     if st.states[st.p] != 'G':
                         self.flag('connect-state', 'protocol is %s after an accepted connect()' % st.states[st.p], st)
@@ -784,7 +793,7 @@ class C08(Monitor):
             if cur[2] == prev[2]:
                 init = (q['initialT_at'].get(id(rec) if pk['type'] != 'PUBREL' else ('rel', id(rec)))) if 'initialT_at' in q else None
                 t0 = rec.get('rel_initial' if pk['type'] == 'PUBREL' else 'initial')
-                if t0 is not None and cur[0] - prev[0] < t0 * TICK:
+                if t0 is not None and cur[0] - prev[0] < t0 * TICK - clock_slack(cur[0]):
                     self.flag('too-early', 'repeat of %s id %d only %.3f s after the previous transmission (initial timeout %d s)' % (pk['type'], pk['id'], (cur[0] - prev[0]) / TICK, t0), st)
                 if pk['type'] == 'PUBLISH' and len(txs) >= 3 and txs[-3][2] == cur[2]:
                     g1 = (prev[0] - txs[-3][0]) / TICK - txs[-3][5]
@@ -1174,14 +1183,14 @@ class C15(Monitor):
                 if q['keepalive']:
                     k = q['keepalive'] * TICK
                     last = e.get('ping_prev')
-                    if last is not None and st.now - last > k:
+                    if last is not None and st.now - last > k + clock_slack(st.now):
                         self.flag('ping-late', 'PINGREQ %.3f s after the previous one / CONNACK (keepalive %d)' % ((st.now - last) / TICK, q['keepalive']), st)
             if e['k'] == 'abort' and op[0] == 'fire':
                 tm = getattr(st, 'timer', None)
                 if tm and tm['kind'] == 'pingalarm':
                     q = bk.proto(e['p'])
                     k = (q['keepalive'] or 0) * TICK
-                    un = [pg for pg in q['pings'] if not pg['answered'] and pg['at'] + k <= st.now]
+                    un = [pg for pg in q['pings'] if not pg['answered'] and pg['at'] + k <= st.now + clock_slack(st.now)]
                     if not un:
                         self.flag('abort-though-answered', 'keepalive aborted connection %d although every PINGREQ was answered in time' % e['p'], st)
 
@@ -1202,12 +1211,12 @@ class C15b(Monitor):
             k = q['keepalive'] * TICK
             last = q['pings'][-1]['at'] if q['pings'] else None
             if last is None:
-                if q.get('connack_at') is not None and now - q['connack_at'] > k:
+                if q.get('connack_at') is not None and now - q['connack_at'] > k + clock_slack(now):
                     self.once(('noping', p), 'no-ping', 'no PINGREQ within %d s of CONNACK on connection %d' % (q['keepalive'], p), st)
-            elif now - last > k and not q['aborted']:
+            elif now - last > k + clock_slack(now) and not q['aborted']:
                 self.once(('gap', p, last), 'ping-gap', 'more than %d s since the last PINGREQ on connection %d' % (q['keepalive'], p), st)
             for pg in q['pings']:
-                if not pg['answered'] and now > pg['at'] + k and not q['aborted']:
+                if not pg['answered'] and now > pg['at'] + k + clock_slack(now) and not q['aborted']:
                     self.once(('dead', p, pg['at']), 'no-abort', 'PINGREQ of connection %d unanswered for more than %d s and the connection was not aborted' % (p, q['keepalive']), st)
 
     def once(self, key, sig, msg, st):
